@@ -312,6 +312,36 @@ def real_children(res, tier):
                     os.kill(pid, signal.SIGKILL)
                 except Exception:
                     pass
+        # a remote worker asked to wait for longer than any internal deadline of the control channel (the server answers after
+        # 11 s): the wait is truthful and bounded by its own timeout, and the worker can still be ended by force afterwards
+        try:
+            sig0 = len(core.SIGTERMS_RECEIVED)
+            core.SIGTERM_GUARD[0] = True
+            w = RemoteWorker(swallower, host=server.addr)
+            time.sleep(0.5)
+            pid = w.pid
+            r1, d1 = call_bounded(lambda: w.wait(timeout=11), 11 * 2 + 5, lambda: pid)
+            gone1 = not os.path.exists(f'/proc/{pid}') or open(f'/proc/{pid}/stat').read().split()[2] == 'Z'
+            r2, d2 = call_bounded(lambda: w.terminate(timeout=1, force=True), 5 * 1 + 6, lambda: pid)
+            time.sleep(0.3)
+            gone2 = not os.path.exists(f'/proc/{pid}') or open(f'/proc/{pid}/stat').read().split()[2] == 'Z'
+            res.count('real:remote:long-wait'); res.case(('real', 'remote', 'long-wait'), nontrivial=True)
+            if r1 is not False or gone1 or d1 > 11 * 1.5 + 2:
+                res.violation(dict(real='remote', child='Swallows', call='wait(timeout=11)'), f'wait(11) on a running child returned {r1} after {d1:.1f}s (child gone: {gone1})')
+            if len(core.SIGTERMS_RECEIVED) > sig0:
+                res.violation(dict(real='remote', child='Swallows', call='wait(timeout=11) then terminate(1, force=True)'),
+                              f'terminate(force=True) of a remote worker whose child is running fell back to sending SIGTERM to the CALLING process (returned {r2}, child gone: {gone2})')
+            elif r2 is not True or not gone2:
+                res.violation(dict(real='remote', child='Swallows', call='wait(timeout=11) then terminate(1, force=True)'),
+                              f'after a wait of 11 s, terminate(1, force=True) returned {r2} after {d2:.1f}s and the child process {pid} is {"gone" if gone2 else "still running"}')
+            try:
+                os.kill(pid, signal.SIGKILL)
+            except Exception:
+                pass
+        except BaseException as e:   # noqa
+            res.violation(dict(real='remote', child='Swallows', call='long wait'), f'scenario raised {type(e).__name__}: {e}')
+        finally:
+            core.SIGTERM_GUARD[0] = False
         # a child which has delivered its result but whose process is still there: wait() must go on saying "not dead",
         # is_alive() must agree with the process table, and terminate(force=True) must still be able to end it
         for kname, mk in kinds:
